@@ -11,6 +11,7 @@ import (
 	"math/big"
 	"os"
 	"strconv"
+	"time"
 )
 
 type verifAssertFailed struct{ id string }
@@ -101,6 +102,11 @@ func verifFloatOfInt1e10(n int64) float64 {
 	return float64(n) / 1e10
 }
 
+// verifDyadicOf returns the float64 n / 2^shift (exact for |n| < 2^53).
+func verifDyadicOf(n int64, shift uint) float64 {
+	return float64(n) / math.Ldexp(1, int(shift))
+}
+
 func verifNondetFloat64(name string) float64 {
 	s, ok := verifLookup(name)
 	if !ok {
@@ -126,6 +132,20 @@ func verifAssert(c bool, id string) {
 }
 
 func verifCover(label string) { verifCovered[label] = true }
+
+// verifEvent marks a point in the current goroutine's event sequence (used by the schedule analysis of C11).
+func verifEvent(name string) {}
+
+// verifSlow makes a fake pipeline stage slow natively (so that a missing wait shows up in replays); a yield under the executor.
+func verifSlow() { time.Sleep(30 * time.Millisecond) }
+
+// verifMapOrder selects how the executor iterates Go maps from now on: 0 = insertion order, 1 = every range over a
+// map with two or more entries forks between forward and reversed order, 2 = always reversed. Natively a no-op
+// (the Go runtime randomises).
+func verifMapOrder(mode int) {}
+
+// verifEmit records an output string (translator validation: interpreter and native build must emit the same).
+func verifEmit(s string) { fmt.Printf("VERIF-EMIT %s\n", s) }
 func verifNote(string)        {}
 
 func verifConcretizeInt(x int) int       { return x }
